@@ -53,6 +53,10 @@ def catalogue(widths=(1, 2), big=False):
             if (1 << aw) * w <= 8:
                 add('SynchronousMemory', [aw, aw, 1, w], [w],
                     lambda hw, i, o: P.SynchronousMemory(hw, 'dut', i[0], i[1], i[2], o[0], i[3]), {'x': 0}, ' aw=%d' % aw)
+    for aw, w in ((1, 1),) + (((1, 2), (2, 1)) if big else ()):
+        add('DualPortSynchronousMemory', [aw, aw, 1, w, aw, aw, 1, w], [w, w],
+            lambda hw, i, o: P.DualPortSynchronousMemory(hw, 'dut', i[0], i[1], i[2], o[0], i[3], i[4], i[5], i[6], o[1], i[7]),
+            {'x': 0}, ' aw=%d w=%d' % (aw, w))
     for e in (0, 1):
         for r in (0, 1):
             add('TReg', [1] + [1] * e + [1] * r, [1],
@@ -73,8 +77,19 @@ def catalogue(widths=(1, 2), big=False):
     return out
 
 
+class BlockRaised(Exception):
+    """the real block raised while being built or clocked (the message names the exception)"""
+
+
 def run_history(cfg, hist):
     """drive the real block from power-up along hist (list of input vectors); rows = in + outs_before + outs_after"""
+    try:
+        return _run_history(cfg, hist)
+    except Exception as e:
+        raise BlockRaised('%s: %s' % (type(e).__name__, str(e)[:120]))
+
+
+def _run_history(cfg, hist):
     import py4hw
     from .common import quiet
     with quiet():
